@@ -338,7 +338,8 @@ func (c *Ctx) ruleNoCoerce(rule string) {
 			work = append(work, e)
 		}
 	}
-	gated, compatCut := 0, 0
+	gated := 0
+	var compatEdges []edge
 	for len(work) > 0 {
 		f := work[len(work)-1]
 		work = work[:len(work)-1]
@@ -347,9 +348,10 @@ func (c *Ctx) ruleNoCoerce(rule string) {
 				continue
 			}
 			if e.To.Name() == "ValidateCompatibility" {
-				// data-mode ValidateCompatibility is "would Unserialize accept this" by definition; the one-of uses it to
-				// pick a member before it calls that member's Validate / Serialize, which is the deciding check
-				compatCut++
+				// Validate / Serialize must not decide anything through the compatibility check: on data it is "would
+				// Unserialize accept this" (lenient conversions) plus schema-compatibility strictness (homogeneous lists),
+				// and it re-creates errors, losing their paths
+				compatEdges = append(compatEdges, edge{f, e.Site})
 				continue
 			}
 			if c.nonStringKindGate(f, e.Site) {
@@ -391,7 +393,20 @@ func (c *Ctx) ruleNoCoerce(rule string) {
 				"call chain "+strings.Join(chain, " -> ")+": a value that is not of the schema's native type (a numeric string, \"true\", a unit string) is converted and accepted by Validate / Serialize instead of being refused")
 		}
 	}
-	c.R.Note("%s: %d text-parsing call sites; %d call edges cut by a reflect-kind gate that excludes strings; %d edges into ValidateCompatibility not followed (a pre-check; the member's own Validate / Serialize decides)", rule, n, gated, compatCut)
+	seenCE := map[string]bool{}
+	for _, ce := range compatEdges {
+		k := key(rule, c.M.Key(ce.from), "Validate / Serialize path calls ValidateCompatibility")
+		if seenCE[k] {
+			continue
+		}
+		seenCE[k] = true
+		c.R.Bad(rule, k, c.M.InstrPos(ce.site.(ssa.Instruction)), "a Validate / Serialize path goes through ValidateCompatibility",
+			"on data the compatibility check is Unserialize (text is parsed, widths converted) plus schema-compatibility rules (e.g. homogeneous lists in any) and it rebuilds errors from their text: native values the member accepts are rejected, non-native ones accepted, and the error path below is lost")
+	}
+	if len(compatEdges) == 0 {
+		c.R.Ok(rule, key(rule, "call graph", "no Validate / Serialize path reaches ValidateCompatibility"), "-", "reachability from Validate / Serialize / ValidateType / SerializeType", "no edge into ValidateCompatibility")
+	}
+	c.R.Note("%s: %d text-parsing call sites; %d call edges cut by a reflect-kind gate that excludes strings", rule, n, gated)
 }
 
 // nonStringKindGate: the call site is reached only where Kind() of reflect.ValueOf(<an argument of the call>) was
